@@ -36,11 +36,36 @@ macro_rules! harness_lms_contract {
         #[kani::stub(<[u8; 32] as tinyvec::Array>::default, crate::models::fast_default)]
         #[kani::stub(hbs_lms::verif_hooks::lms::generate_key_pair, crate::contracts::model_generate_key_pair)]
         #[kani::stub(hbs_lms::verif_hooks::lms_signing::LmsSignature::sign, crate::contracts::model_lms_sign)]
+        #[kani::stub(hbs_lms::verif_hooks::hss_signing::HssSignature::to_binary_representation, crate::contracts::model_hss_signature_bytes)]
         pub fn $name() $body
     };
 }
 #[cfg(not(kani))]
 macro_rules! harness_lms_contract {
+    ($(#[$m:meta])* fn $name:ident() unwind $unwind:literal $body:block) => {
+        $(#[$m])*
+        pub fn $name() $body
+    };
+}
+
+/// Harness wrapper for the callback protocol: both HSS-level operations and the signature serialiser
+/// replaced by "light" contracts (crate::contracts); everything else in hss_sign / SigningKey is real.
+#[cfg(kani)]
+macro_rules! harness_protocol {
+    ($(#[$m:meta])* fn $name:ident() unwind $unwind:literal $body:block) => {
+        $(#[$m])*
+        #[kani::proof]
+        #[kani::unwind($unwind)]
+        #[kani::stub(zeroize::optimization_barrier, crate::models::noop_barrier)]
+        #[kani::stub(<[u8; 32] as tinyvec::Array>::default, crate::models::fast_default)]
+        #[kani::stub(hbs_lms::verif_hooks::hss_definitions::HssPrivateKey::from, crate::contracts::model_from_light)]
+        #[kani::stub(hbs_lms::verif_hooks::hss_signing::HssSignature::sign, crate::contracts::model_hss_sign_light)]
+        #[kani::stub(hbs_lms::verif_hooks::hss_signing::HssSignature::to_binary_representation, crate::contracts::model_hss_signature_bytes)]
+        pub fn $name() $body
+    };
+}
+#[cfg(not(kani))]
+macro_rules! harness_protocol {
     ($(#[$m:meta])* fn $name:ident() unwind $unwind:literal $body:block) => {
         $(#[$m])*
         pub fn $name() $body
